@@ -50,7 +50,8 @@ def _decode_escape_sequence(  # noqa: PLR0911
         digits = value[index + 1 : index + 3]
         if len(digits) != 2:  # noqa: PLR2004
             raise PestGrammarSyntaxError("incomplete \\x escape sequence", token=token)
-        return chr(_parse_hex_digits(digits, token)), index + 3
+        # `index` is returned pointing at the last character of the sequence.
+        return chr(_parse_hex_digits(digits, token)), index + 2
     if ch == "u":
         codepoint, index = _decode_hex_char(value, index, token)
         if codepoint > 0x10FFFF:  # noqa: PLR2004
@@ -88,8 +89,7 @@ def _decode_hex_char(value: str, index: int, token: Token) -> tuple[int, int]:
         )
 
     codepoint = _parse_hex_digits(value[index : index + hex_digit_length], token)
-    index += hex_digit_length
-    index += 1  # move past '}'
+    index += hex_digit_length  # now at '}', the last character of the sequence
     return codepoint, index
 
 
